@@ -6,8 +6,6 @@ from corebase import CHECK_MODS, CASE_TYPE, CORR, run_impl, encode, shrink  # no
 
 PROP = 'C11'
 PROPCHK = 'C11_prop'
-RELAX = [('F-C01-blind-set', 'C11_prop_blind')]
-RELAX_ALL = 'C11_prop_blind'
 THEOREMS = ['C11_at_most_one_row', 'C11_operation_type_coalesces', 'C11_other_entities_do_not_interfere', 'C11_example']
 RULE = ('(enumerated) every sequence over {insert, update, delete, re-insert} of one key with every placement of flush '
         'points, up to length 4, inside a single transaction after a committed prefix (entity pre-existing or not), both '
